@@ -96,6 +96,44 @@ def classes_for(info):
         if False else [c for c in info.codec_classes() if info.is_object(c) and (info.class_codes(c))]
 
 
+def make_replayer(info):
+    from harness import replay_gen
+    def replayer(job, label, vals, data):
+        """native replay of a round-trip counterexample: the traced inputs are written and read back by the REAL codec"""
+        parts = label.split('/')
+        if len(parts) < 4 or parts[2] != 'roundtrip': return None, 'no native observation point'
+        cn, clause = parts[1], parts[3]
+        if not (info.is_object(cn) and info.classes[cn]['default_constructible']): return None, 'no native driver'
+        lines = replay_gen.script_from_inputs(info, cn, vals)
+        leaves = {l['path']: l for l in info.leaves(cn)}
+        want = None
+        if clause.startswith('member:'):
+            path = clause[len('member:'):].replace('.size', '').replace('.content', '')
+            if path in leaves and leaves[path]['kind'] in ('scalar', 'vec'):
+                lines.append('get %s' % path); want = path
+        lines.append('roundtrip')
+        res, err = replay_gen.run_driver(info, '\n'.join(lines) + '\n')
+        data['native_script'] = lines; data['native_result'] = res
+        if res.get('sanitizer') or res.get('exit', 0) != 0:
+            return True, 'sanitizer report / crash in the real codec: %s' % str(res.get('sanitizer', res.get('exit')))[:300]
+        if 'emitted' not in res: return None, 'no result from the native driver'
+        if clause.startswith('RT3'):
+            return res['consumed'] != res['emitted'], 'real codec: emitted %d bytes, decoding consumed %d' % (res['emitted'], res['consumed'])
+        if clause.startswith('stream-good'):
+            return res['good'] == 0, 'real codec: stream good after read = %d' % res['good']
+        if want is not None and ('y:' + want) in res:
+            k = 'in_' + classinfo.cid(want) + ('__size' if leaves[want]['kind'] == 'vec' else '')
+            if k not in vals: return None, 'input not in trace'
+            exp = replay_gen.parse_val(vals[k])
+            width = 8 * classinfo.SIZES.get(leaves[want]['ctype'] or 'uint64_t', 8) if leaves[want]['kind'] == 'scalar' else 64
+            mask = (1 << width) - 1
+            got = res['y:' + want] & mask
+            if bc.is_library_derived(info, cn, leaves[want]): return None, 'library-derived member'
+            return got != (exp & mask), 'real codec: wrote %s = %d, read back %d' % (want, exp & mask, got)
+        return None, 'clause %s has no native observation point' % clause
+    return replayer
+
+
 def main():
     meta = core.ensure_extracted()
     info = classinfo.Info(meta)
@@ -137,7 +175,7 @@ def main():
         elif not st['other']:
             rep.known.append('%s - listed finding no longer reproduces (%s)' % (', '.join(k.get('labels', [])), k['what']))
         rep.inconclusive += st['other']
-    core.triage(rep, results, info)
+    core.triage(rep, results, info, replayer=make_replayer(info))
     return rep.finish('proof', 'goto-cc | cbmc --unwind N+2 --unwinding-assertions ' + ' '.join(bc.FLAGS) + ' (explicit round-trip harness on the extracted codecs, BYTES stream model)',
                       core.TRUSTED_BASE)
 
